@@ -76,8 +76,9 @@ class ConstFlow(NodeElementComponent):
         is_juncts = np.isin(loads.junction.values, junct_pit[nodes_connected_hyd, ELEMENT_IDX])
 
         is_calc = is_loads & is_juncts
-        res_table["mdot_kg_per_s"].values[is_calc] = loads.mdot_kg_per_s.values[is_calc] \
-            * loads.scaling.values[is_calc]
+        # a missing mass flow value counts as zero flow in the calculation (s. create_pit_node_entries)
+        res_table["mdot_kg_per_s"].values[is_calc] = np.nan_to_num(
+            loads.mdot_kg_per_s.values[is_calc]) * loads.scaling.values[is_calc]
 
     @classmethod
     def get_component_input(cls):
